@@ -22,7 +22,9 @@ import time
 VERIF = os.path.dirname(os.path.dirname(os.path.abspath(__file__)))
 sys.path.insert(0, VERIF)
 
-CONTRACT_MODULES = ['contracts.leaves', 'contracts.stages', 'contracts.stages2']
+CONTRACT_MODULES = ['contracts.leaves', 'contracts.stages', 'contracts.stages2', 'contracts.parallel',
+                    'contracts.more', 'contracts.factories', 'contracts.stp', 'contracts.cache',
+                    'contracts.profiling', 'contracts.database', 'contracts.bucket', 'contracts.laws']
 
 
 def load_contracts():
